@@ -178,6 +178,45 @@ def scripted_oracle(chk, prec, maxit, scripts, obs):
                 return
 
 
+def scripted_oracle_later(chk, prec, maxit, scripts, obs):
+    """the same for every LATER solve of the same unit (histories): the first iterate is compared with what the unit remembered from the
+    previous solve; a solve that neither reports convergence nor warns (and did not raise) ended silently"""
+    for j in range(1, len(obs)):
+        out, stored, k = obs[j]
+        k_prev = sum(o[2] for o in obs[:j]) if False else None
+        script = scripts[j]
+        data = {'precision': prec, 'max_iteration_count': maxit, 'scripts': scripts[:j + 1], 'solve': j + 1}
+        if out.startswith('(Raised') or out.startswith('(ShapeError'):
+            continue
+        vecs = script[:k]
+        finite = all(v != 'raise' and all(math.isfinite(x) for x in v) for v in vecs) and len({len(v) for v in vecs if v != 'raise'}) <= 1
+        if not finite or not vecs or not vecs[0]:
+            continue
+        prev0 = obs[j - 1][1]
+        if prev0 is not None and (len(prev0) != len(vecs[0]) or not all(math.isfinite(x) for x in prev0)):
+            prev0 = None
+
+        def pred(i):        # what iterate i (1-based) is compared with
+            return vecs[i - 2] if i >= 2 else prev0
+        if out == '(Converged 0%nat)':
+            chk.fail('silent-non-convergence', f"solve {j + 1} of the same unit ended after {k} iterations without reporting convergence and without the "
+                     "non-convergence warning", data)
+            return
+        m = re.match(r'\(Converged (\d+)', out)
+        if m:
+            i = int(m.group(1))
+            p = pred(i) if 1 <= i <= len(vecs) else None
+            if p is not None and not ref_close(p, vecs[i - 1], prec):
+                chk.fail('honest-convergence', f"solve {j + 1}: finished after {i} iterations although iterate {i} does not agree with its predecessor within {prec}", data)
+                return
+        elif out == 'Warned':
+            for i in range(1, k + 1):
+                p = pred(i)
+                if p is not None and ref_close(p, vecs[i - 1], prec):
+                    chk.fail('spurious-warning', f"solve {j + 1}: warned although iterate {i} agrees with its predecessor within {prec}", data)
+                    return
+
+
 # ---- real sequences: supporting runs ------------------------------------------------------------------------
 FAULT = {'present': False, 'countdown': None}
 
@@ -378,6 +417,8 @@ def run(chk):
         dist[kind] = dist.get(kind, 0) + 1
         chk.cov['evaluations'] += 1
         scripted_oracle(chk, prec, maxit, scripts, obs)
+        if not chk.failures:
+            scripted_oracle_later(chk, prec, maxit, scripts, obs)
         items = "; ".join(f"([{'; '.join(citer(it) for it in list(sc) + ['raise'] * 3)}], {o}, {cstored(st)}, {k}%nat)"
                           for sc, (o, st, k) in zip(scripts, obs))
         rendered.append(f"({cq(prec)}, {maxit}%nat, [{items}])")
